@@ -232,11 +232,18 @@ pub fn digest_event_split(out: &mut dyn std::io::Write, alg: &str, n: usize, msg
             h.upd(msg);
         } else {
             let cut = 1 + (split % (msg.len() - 1));
+            // empty updates before the first piece / between the pieces / after the last one, by bits of `split`
+            if split & 0x2000 != 0 {
+                h.upd(&[]);
+            }
             h.upd(&msg[..cut]);
             if split & 0x8000 != 0 {
                 h.upd(&[]);
             }
             h.upd(&msg[cut..]);
+            if split & 0x1000 != 0 {
+                h.upd(&[]);
+            }
         }
         h.fin()
     });
